@@ -61,6 +61,56 @@ def render_module(root: Path, tasks: list[dict], version: int) -> str:
     return "\n".join(lines)
 
 
+def render_pmodule(root: Path, tasks: list[dict], version: int) -> str:
+    """Module with provisional producers/consumers and task generators (C18)."""
+    lines = [
+        "import pytask", "from pathlib import Path", "from typing import Annotated",
+        "from pytask import DirectoryNode, Product, task", "import verif_rt", "",
+        f"ROOT = Path({str(root)!r})", f"VERSION = {version}", "",
+        "def _child(_k, _f):",
+        "    @task(name=f'task_t{20000 + _k}_')",
+        "    def _(src: Path = _f, dst: Annotated[Path, Product] = ROOT / f'f{30000 + _k}.txt'):",
+        "        verif_rt.body(ROOT, 20000 + _k, VERSION, [src], {30000 + _k: dst})",
+        "",
+    ]
+    for t in tasks:
+        i = t["id"]
+        decos = []
+        if t.get("skip"):
+            decos.append("@pytask.mark.skip")
+        if t.get("persist"):
+            decos.append("@pytask.mark.persist")
+        if t.get("is_gen"):
+            decos.append("@task(is_generator=True)")
+        args = []
+        pat_args = []
+        for j, p in enumerate(t.get("pdeps", [])):
+            args.append(f"pf{j}: Annotated[list[Path], DirectoryNode(root_dir=ROOT / 'pat{p}', pattern='*.in')]")
+            pat_args.append(f"pf{j}")
+        pdir = "None"
+        for j, p in enumerate(t.get("pprods", [])):
+            args.append(f"pd{j}: Annotated[Path, DirectoryNode(root_dir=ROOT / 'pat{p}', pattern='*.in'), Product]")
+            pdir = f"pd{j}"
+        args += [f"d{j}: Path = ROOT / 'f{d}.txt'" for j, d in enumerate(t["deps"])]
+        args += [f"p{j}: Annotated[Path, Product] = ROOT / 'f{p}.txt'" for j, p in enumerate(t["prods"])]
+        lines += decos
+        lines.append(f"def task_t{i}_({', '.join(args)}):")
+        dl = "[" + ", ".join(f"d{j}" for j in range(len(t["deps"]))) + "]"
+        pl = "{" + ", ".join(f"{p}: p{j}" for j, p in enumerate(t["prods"])) + "}"
+        fl = " + ".join(f"list({a})" for a in pat_args) or "[]"
+        if t.get("is_gen"):
+            lines += [
+                f"    verif_rt.gen_begin(ROOT, {i})",
+                f"    for _f in sorted({fl}, key=verif_rt._nid):",
+                "        _child(verif_rt._nid(_f) - 10000, _f)",
+                f"    verif_rt.gen_log(ROOT, {i}, 'F')",
+            ]
+        else:
+            lines.append(f"    verif_rt.pbody(ROOT, {i}, VERSION, {dl}, {fl}, {pl}, pdir={pdir}, clears={bool(t.get('clears'))})")
+        lines.append("")
+    return "\n".join(lines)
+
+
 class Snap:
     """Observation plugin: snapshot of the collected tasks."""
 
@@ -87,7 +137,7 @@ class Snap:
             for sig in dag.nodes:
                 n = dag.nodes[sig].get("node")
                 if n is not None and hasattr(n, "path"):
-                    nodes[sig] = n.path.name
+                    nodes[sig] = n.path.parent.name + "/" + n.path.name if n.path.suffix == ".in" else n.path.name
         root = session.config["root"]
         (root / "snapshot.json").write_text(json.dumps({"tasks": self.tasks, "nodes": nodes}))
 
@@ -129,6 +179,11 @@ def _child(root: str, cfg: dict, wfd: int, crash: dict | None):
         kw.setdefault("capture", "fd")
         session = B.build(paths=[Path(root)], **kw)
         out = {"exit": int(session.exit_code), "tasks": snap.tasks}
+        known = {t["sig"] for t in snap.tasks}
+        for t in getattr(session, "tasks", []):      # tasks created by generators during the build
+            if t.signature not in known:
+                out["tasks"].append({"name": t.name, "sig": t.signature, "attrs": [], "marks": [m.name for m in t.markers]})
+        out["errors"] = [(r.task.signature, repr(r.exc_info[1])[:400]) for r in getattr(session, "execution_reports", []) if r.exc_info]
         out["reports"] = [(r.task.signature, r.outcome.name) for r in getattr(session, "execution_reports", [])]
         nodes = {}
         dag = getattr(session, "dag", None)
@@ -136,7 +191,7 @@ def _child(root: str, cfg: dict, wfd: int, crash: dict | None):
             for sig in dag.nodes:
                 n = dag.nodes[sig].get("node")
                 if n is not None and hasattr(n, "path"):
-                    nodes[sig] = n.path.name
+                    nodes[sig] = n.path.parent.name + "/" + n.path.name if n.path.suffix == ".in" else n.path.name
         out["nodes"] = nodes
         os.write(wfd, json.dumps(out).encode())
     except BaseException:  # noqa: BLE001
@@ -189,6 +244,8 @@ def read_files(root: Path) -> dict:
             out[int(p.stem[1:])] = p.read_text()
         except ValueError:
             pass
+    for p in root.glob("pat*/g*.in"):
+        out[10000 + 100 * int(p.parent.name[3:]) + int(p.stem[1:])] = p.read_text()
     return out
 
 
